@@ -2,7 +2,12 @@
 //!
 //! Currently only moves [SqlTransform::Sort]s.
 
+#[cfg(not(prqlc_verif))]
 use std::collections::{HashMap, HashSet, VecDeque};
+#[cfg(prqlc_verif)]
+use std::collections::VecDeque;
+#[cfg(prqlc_verif)]
+use prqlc_parser::verif_hash::{HashMap, HashSet};
 
 use itertools::Itertools;
 
